@@ -336,6 +336,39 @@ def case_composed(B, cfg):
     if len(kinds) >= 3:
         B.eq('flat composition = nested composition', build(
             nested=True).compute_log_likelihood(ps.arr(B, X)), v)
+    if len(kinds) >= 3 and not cfg.get('int_obs'):
+        # a composition nested in a composition whose *inner* time points
+        # were re-ordered before nesting: the simulated values of the inner
+        # block handed over in that order give the same score
+        n_in = n_t - split[0]
+        for order_in in (list(range(n_in))[::-1],
+                         list(range(1, n_in)) + [0]):
+            if order_in == list(range(n_in)):
+                continue
+            parts = [make(k, ps.arr(B, Ms[q])) for q, k in enumerate(kinds)]
+            inner = chi.ComposedPopulationFilter(parts[1:])
+            inner.sort_times(order_in)
+            outer = chi.ComposedPopulationFilter([parts[0], inner])
+            cols = list(range(split[0])) + [split[0] + j for j in order_in]
+            Xn = [[[X[s][o][c] for c in cols] for o in range(n_obs)]
+                  for s in range(n_sim)]
+            B.eq('nested composition, inner times re-ordered: score '
+                 'unchanged', outer.compute_log_likelihood(ps.arr(B, Xn)), v)
+            scn, sen = outer.compute_sensitivities(ps.arr(B, Xn))
+            B.eq('nested composition, inner times re-ordered: S1 score',
+                 scn, v)
+            _, gn = B.grad(lambda xs: build().compute_log_likelihood(
+                ps.arr(B, [[[xs[(s * n_obs + o) * n_t + t]
+                             for t in range(n_t)] for o in range(n_obs)]
+                           for s in range(n_sim)])),
+                [X[s][o][t] for s in range(n_sim) for o in range(n_obs)
+                 for t in range(n_t)])
+            for s in range(n_sim):
+                for o in range(n_obs):
+                    for k, c in enumerate(cols):
+                        B.eq('nested composition, inner times re-ordered: '
+                             'sens[%d,%d,%d] in input order' % (s, o, k),
+                             sen[s][o][k], gn[(s * n_obs + o) * n_t + c])
     flat = [X[s][o][t] for s in range(n_sim) for o in range(n_obs)
             for t in range(n_t)]
 
